@@ -485,46 +485,62 @@ func ruleT2(w *World, r *Report) {
 	if fn == nil {
 		return
 	}
-	entry := fn.Blocks[0]
-	key := "(*Store).FlushRevert › nil-file test first, error arm"
-	ifi, ok := entry.Instrs[len(entry.Instrs)-1].(*ssa.If)
-	if !ok {
-		r.Bad(rule, key, w.Pos(fn.Pos()), "the entry block does not end in the nil-file test")
-		return
-	}
-	x, trueMeansNil, ok := nilTest(ifi.Cond)
-	_, isFile := isLoadOfField(x, "Store", "file")
-	if !ok || !isFile {
-		r.Bad(rule, key, w.InstrPos(ifi), "the first test of FlushRevert is not `s.file == nil`")
-		return
-	}
-	for _, in := range entry.Instrs {
-		if _, isCall := in.(ssa.CallInstruction); isCall {
-			r.Bad(rule, key, w.InstrPos(in), "a call precedes the nil-file test: a memory-only store is touched before being rejected")
-			return
-		}
-		if _, isStore := in.(*ssa.Store); isStore {
-			r.Bad(rule, key, w.InstrPos(in), "a store precedes the nil-file test")
-			return
+	// explore every path on which each test of Store.file answers "nil" (a memory-only
+	// store): all of them must return a definite error and touch nothing on the way
+	key := "(*Store).FlushRevert › a memory-only store is refused before any effect"
+	ok, tests := true, 0
+	why := ""
+	var badAt ssa.Instruction
+	fail := func(in ssa.Instruction, msg string) {
+		if ok {
+			ok, why, badAt = false, msg, in
 		}
 	}
-	arm := entry.Succs[1]
-	if trueMeansNil {
-		arm = entry.Succs[0]
-	}
-	okRet := false
-	for _, in := range arm.Instrs {
-		if ret, isRet := in.(*ssa.Return); isRet && len(ret.Results) == 1 && isNonNilErrorValue(ret.Results[0]) {
-			okRet = true
+	wk := &Walker{Fn: fn}
+	wk.Branch = func(env *Env, ifi *ssa.If) (bool, bool) {
+		x, trueMeansNil, isNil := nilTest(ifi.Cond)
+		if _, isFile := isLoadOfField(x, "Store", "file"); isNil && isFile {
+			tests++
+			return trueMeansNil, !trueMeansNil
 		}
-		if _, isCall := in.(ssa.CallInstruction); isCall {
-			if c := in.(ssa.CallInstruction).Common().StaticCallee(); c != nil && w.InLib(c) {
-				okRet = false
-				break
+		return true, true
+	}
+	wk.OnInstr = func(env *Env, in ssa.Instruction, trail []*ssa.BasicBlock) bool {
+		switch x := in.(type) {
+		case *ssa.Return:
+			if in.Block().Comment == "recover" {
+				return true
+			}
+			if len(x.Results) != 1 || !isNonNilErrorValue(env.Resolve(x.Results[0])) {
+				fail(in, "with Store.file nil a path through FlushRevert returns something other than a definite error")
+			}
+			return true
+		case *ssa.Store:
+			if fa, isFa := x.Addr.(*ssa.FieldAddr); isFa {
+				if _, st, _, isF := fieldOf(fa); isF && st != nil && st.Obj().Name() == "Store" {
+					fail(in, "a field of the store is written before the memory-only store is refused")
+				}
+			}
+		case ssa.CallInstruction:
+			if c := x.Common().StaticCallee(); c != nil && w.InLib(c) {
+				reach := w.G.ReachFrom(c)
+				touches := w.reachesSink(c, "WriteAt", "Truncate") != nil || len(w.sizeWritesInReach(c)) > 0 || reach.Set[w.Fn("(*Store).casColl")] || reach.Set[w.Fn("(*Store).setColl")]
+				if touches {
+					fail(in, "the memory-only store is touched ("+w.Name(c)+") before being refused")
+				}
 			}
 		}
+		return false
 	}
-	r.Check(okRet, rule, key, w.InstrPos(ifi), "nil file ⇒ immediate return of a fresh error, before any effect", "the nil-file arm does not return a non-nil error straight away")
+	wk.Run(nil, nil)
+	if ok && tests == 0 {
+		ok, why = false, "FlushRevert never tests Store.file for nil"
+	}
+	pos := w.Pos(fn.Pos())
+	if badAt != nil {
+		pos = w.InstrPos(badAt)
+	}
+	r.Check(ok, rule, key, pos, "every path with Store.file nil returns a fresh error without writing a field, the cursor, the collection map or the file", why)
 }
 
 // T3 (Truncate guards) is shared with C09; T4: collections are dropped before the scan;
